@@ -53,14 +53,19 @@ def main(run):
     thorough = run.tier == "thorough"
     sh, nsh = run.shard
     mdd = 0.0
-    for j, (k, p, snaps, rq, rt) in enumerate(GRID):
+    grnd = random.Random(run.seed + 77)          # extra (k, p) configurations drawn from VERIF_SEED (same in every shard)
+    grid = list(GRID)
+    for _ in range(3):
+        k = grnd.choice([1, 2, 3, 4, 6, 8])
+        grid.append((k, round(grnd.uniform(0.05, 0.98), 3), [k + 1, k + grnd.randrange(2, 7), 4 * k + 3], 12000, 120000))
+    for j, (k, p, snaps, rq, rt) in enumerate(grid):
         if j % nsh != sh:
             continue
         runs = rt if thorough else rq
         pe = 1 / k if p is None else p
         random.seed(run.shard_seed * 104729 + j)
         ntests = sum(len(picks(k, n)) for n in snaps) + 1 + (k if k <= 10 else 10)
-        ct = CellTests(ntests, eps=EPS / len(GRID))
+        ct = CellTests(ntests, eps=EPS / (len(GRID) + 3))
         incl = {n: collections.Counter() for n in snaps}
         offers = accepts = 0
         slots = collections.Counter()
